@@ -901,6 +901,30 @@ def immutable_treeseq(ctx, py, rule="PY-TS-IMMUTABLE"):
                     n += 1
                     ctx.ob(rule, "%s|%s" % (qn, x.func.attr), fresh, m.loc(x), "%s() on a freshly constructed _tskit.TreeSequence()" % x.func.attr)
     ctx.ob(rule, "instances", n >= 3, m.rel, "%d assignment / loader sites analysed" % n)
+    # lazily cached results: whatever a TreeSequence method stores on self after construction and hands out again must be frozen
+    for qn, fn in m.funcs.items():
+        if not qn.startswith("TreeSequence.") or qn.split(".")[-1] in ("__init__", "__setstate__"):
+            continue
+        for x in ast.walk(fn):
+            if isinstance(x, ast.Assign):
+                for t in x.targets:
+                    if isinstance(t, ast.Attribute) and isinstance(t.value, ast.Name) and t.value.id == "self" and t.attr != "_ll_tree_sequence":
+                        if isinstance(x.value, ast.Constant):
+                            continue
+                        frozen = False
+                        for y in ast.walk(fn):
+                            if isinstance(y, ast.Assign) and isinstance(y.value, ast.Constant) and y.value.value is False:
+                                for tt in y.targets:
+                                    if ast.unparse(tt) == "self.%s.flags.writeable" % t.attr:
+                                        frozen = True
+                            if isinstance(y, ast.Call) and ast.unparse(y.func) == "self.%s.setflags" % t.attr \
+                                    and any(k.arg == "write" and isinstance(k.value, ast.Constant) and k.value.value is False for k in y.keywords):
+                                frozen = True
+                        n += 1
+                        ctx.ob(rule, "%s|cache|%s" % (qn, t.attr), frozen, m.loc(x),
+                               "cached `self.%s` is made read-only before it is handed out" % t.attr if frozen else
+                               "`self.%s = %s` caches a mutable object that every later call returns again: writing into it changes what "
+                               "the tree sequence reports (set `.flags.writeable = False`, or do not cache)" % (t.attr, ast.unparse(x.value)[:50]))
     return n
 
 
@@ -1177,4 +1201,70 @@ def py_width(ctx, py, mods, only=None, rule="PY-WIDTH"):
             n += 1
             ctx.ob(rule, "%s.%s" % (mn, qn), bad is None, m.loc(bad[0]) if bad else m.loc(fn),
                    "no narrowing of coordinates" if bad is None else "`%s` narrows a coordinate / time to %s" % (ast.unparse(bad[0])[:80], bad[1]))
+    return n
+
+
+def base_class_attrs(ctx, py, mod="tables", base="BaseTable", rule="PY-BASE-ATTR"):
+    """Methods of a base class must not assume an attribute that only some subclasses define."""
+    ctx.rule(rule, "a method that all eight table classes inherit from BaseTable reads `self.<attr>` for an attribute that only the "
+                   "MetadataTable branch defines (metadata_schema, …) only under a guard (`try: … except AttributeError`, or inside "
+                   "an `if` on the presence of the metadata column), unless every subclass outside that branch overrides the method: "
+                   "ProvenanceTable has no metadata schema, and indexing / copying / comparing it must still work")
+    m = py.mod(mod)
+
+    def members(cn):
+        out = set()
+        c = m.classes[cn]
+        for s in c.body:
+            if isinstance(s, (ast.FunctionDef, ast.AsyncFunctionDef)):
+                out.add(s.name)
+            elif isinstance(s, ast.Assign):
+                out |= {t.id for t in s.targets if isinstance(t, ast.Name)}
+            elif isinstance(s, ast.AnnAssign) and isinstance(s.target, ast.Name):
+                out.add(s.target.id)
+        for qn, fn in m.funcs.items():
+            if qn.startswith(cn + "."):
+                for x in ast.walk(fn):
+                    if isinstance(x, ast.Attribute) and isinstance(x.ctx, ast.Store) and isinstance(x.value, ast.Name) and x.value.id == "self":
+                        out.add(x.attr)
+        return out
+    bases = {cn: [ast.unparse(b) for b in c.bases] for cn, c in m.classes.items()}
+
+    def ancestors(cn):
+        out = []
+        for b in bases.get(cn, []):
+            if b in m.classes:
+                out += [b] + ancestors(b)
+        return out
+    subs = [cn for cn in m.classes if base in ancestors(cn)]
+    base_mem = members(base)
+    n = 0
+    for qn, fn in m.funcs.items():
+        if not qn.startswith(base + ".") or qn.endswith(".setter"):
+            continue
+        meth = qn.split(".")[1]
+        pm = parents_map(fn)
+        for x in ast.walk(fn):
+            if not (isinstance(x, ast.Attribute) and isinstance(x.value, ast.Name) and x.value.id == "self" and isinstance(x.ctx, ast.Load)):
+                continue
+            a = x.attr
+            if a in base_mem:
+                continue
+            have = [s for s in subs if a in members(s) or any(a in members(anc) for anc in ancestors(s) if anc != base)]
+            lack = [s for s in subs if s not in have and m.classes[s].body and not any(s in ancestors(t) for t in subs)]   # concrete leaves
+            lack = [s for s in lack if meth not in members(s)]      # the method is overridden there
+            if not have or not lack:
+                continue
+            guard = None
+            p, child = pm.get(x), x
+            while p is not None and p is not fn:
+                if isinstance(p, ast.Try) and child in p.body and any(h.type is None or "AttributeError" in ast.unparse(h.type) for h in p.handlers):
+                    guard = "try/except AttributeError"
+                if isinstance(p, ast.If) and child in p.body and re.search(r"metadata|hasattr", ast.unparse(p.test)):
+                    guard = "if " + ast.unparse(p.test)[:40]
+                child, p = p, pm.get(p)
+            n += 1
+            ctx.ob(rule, "%s|%s" % (qn, a), guard is not None, m.loc(x),
+                   "self.%s read under %s" % (a, guard) if guard else
+                   "self.%s is read unguarded in a method inherited by %s, which do(es) not define it: AttributeError" % (a, ", ".join(lack)))
     return n
